@@ -162,6 +162,11 @@ def scenarios(tier: str) -> tuple[list[C07Scenario], list[C07Scenario]]:
                     grid.append(C07Scenario(handlers=noting, lifecycle='one_by_one', user=user, settings=settings,
                                             holds=holds, horizon=t0 + 20.0, gap=gap, nf=nf, ev_patches=True,
                                             delays=False, early_user=False, time_dev=False))
+                    # ... and a note that follows the foreign status edits: a held-back cycle makes another own write to wait for
+                    noting2 = [dict(h, script=['ok+note']) if h['id'] == 'ev' else h for h in handlers]
+                    grid.append(C07Scenario(handlers=noting2, lifecycle='one_by_one', user=user, settings=settings,
+                                            holds=holds, horizon=t0 + 20.0, gap=gap, nf=nf, ev_patches=True, ev_notes=True,
+                                            delays=False, early_user=False, time_dev=False))
                 if nf == 0 and de > 1.0:
                     # a foreign label edit arrives while the barrier is up (the echo is still held): the daemon and the timer
                     # it makes match start right then, the change handlers wait
